@@ -98,9 +98,27 @@ Theorem C04_every_schedule_guard_holds_exactly :
   exists H K, Wp.agree t (b_w s) H K /\ Permutation H (WpAlgo.holds_of m (gleaves (gitems s0))).
 Proof. exact WpMain.every_schedule_guard_holds_exactly. Qed.
 
+(* every schedule: a try_* / scoped_try_* call never waits — a thread inside such a call is never parked on a blocking raw
+   acquisition, in any state reached under any schedule *)
+Theorem C04_every_schedule_try_never_waits :
+  forall b sched t c m f p k l, WpMain.wfB b = true ->
+  let sc := bs_sc b in
+  let s := fst (run_sched (bs_wp b) (sc_env sc) (sc_nlocks sc) (binit b) sched) in
+  th_cur (get_thr (b_thr s) t) = Some (AAcquire c m f, p) ->
+  (f = FTry \/ exists lent body, f = FScopedTry lent body) ->
+  parked (get_thr (b_thr s) t) = Some (ORaw k l) -> rop_blocking k = false.
+Proof.
+  intros b sched t c m f p k l W sc s CU TF PK. destruct (rop_blocking k) eqn:BL; [|reflexivity]. exfalso.
+  destruct (WpMain.every_schedule_only_blocking_acquisitions_wait b sched t k l W PK BL) as [c' [m' [f' [p' [CU' BF]]]]].
+  fold sc in CU'. fold s in CU'. rewrite CU in CU'. inversion CU'; subst.
+  destruct TF as [->|[lent [body ->]]]; discriminate BF.
+Qed.
+
+
 Print Assumptions C04_leaves_get_ptrs.
 Print Assumptions C04_lock_all_or_wait.
 Print Assumptions C04_try_all_or_nothing.
 Print Assumptions C04_scoped_call.
 Print Assumptions C04_every_history.
 Print Assumptions C04_every_schedule_guard_holds_exactly.
+Print Assumptions C04_every_schedule_try_never_waits.
